@@ -500,6 +500,8 @@ impl SlabRouter {
         }
 
         // Apply to in-memory state
+        #[cfg(neumann_verif)]
+        crate::verif_hook::point("put_durable.logged");
         self.put(key, value)
     }
 
@@ -542,6 +544,8 @@ impl SlabRouter {
         }
 
         // Apply to in-memory state
+        #[cfg(neumann_verif)]
+        crate::verif_hook::point("delete_durable.logged");
         self.delete(key)
     }
 
